@@ -14,3 +14,5 @@ import MicroHttp.Props.Tables
 #print axioms MicroHttp.Tables.client_write_state
 #print axioms MicroHttp.Tables.no_shared_state
 #print axioms MicroHttp.Tables.no_interior_mutability
+#print axioms MicroHttp.Tables.client_fields
+#print axioms MicroHttp.Tables.server_fields
